@@ -843,7 +843,8 @@ SPEC = {
     "targets": ["props/C13.vo"],
     "model_targets": ["model/AutoHeadTail.vo", "model/TreeEq.vo", "model/AhtRoundTrip.vo", "model/AhtRoundTripMore.vo"],
     "module": "C13",
-    "theorems": ["C13_fails_exactly", "C13_equal_to_input", "C13_only_fills_empty", "C13_idempotent",
+    "theorems": ["C13_fails_exactly", "C13_equal_to_input", "C13_only_fills_empty", "C13_fills_where_needed",
+                 "C13_idempotent",
                  "C13_roundtrip_refuted", "C13_roundtrip_noF4_refuted", "C13_roundtrip_partial"],
     # the round trip for every image of the grammar, any depth (guard model/AhtRoundTrip.v rt_ok;
     # proofs/AhtRoundTripProofs.v; concluded with C03c_grammar_trees)
@@ -856,10 +857,24 @@ SPEC = {
               "theorems": ["C13x_round_trip_partial", "C13x_round_trip_tokens", "C13x_subsumes_C13r",
                            "C13x_implies_C13r", "C13x_guard_excludes_f4"]}],
     "correspond": correspond,
-    "statement": "auto_head_tail raises exactly on an AND/OR/Bool operation without operand; otherwise its result "
-                 "equals the input, only empty heads/tails became one blank, it is idempotent and leaves its "
+    "statement": "auto_head_tail raises exactly on an AND/OR/Bool operation without operand (C13_fails_exactly); "
+                 "otherwise its result equals the input (C13_equal_to_input, under the constructor invariant "
+                 "`all_nodes eq_stable t`: an implicit degree / force has its default value; needed: Example "
+                 "C13_equal_needs_constructor_invariant, f = Fuzzy(Word('a')); f.degree = Decimal(2), replayed), only "
+                 "empty heads/tails became one blank and nothing else changed (C13_only_fills_empty, under "
+                 "`well_formed t` = all_nodes wf_node, the full constructor invariant, which implies eq_stable; needed: Example "
+                 "C13_only_fills_needs_constructor_invariant, same value), and the blanks go exactly where a separator "
+                 "is needed (C13_fills_where_needed, NO guard: at every position of the input, the head / tail is a "
+                 "blank iff it was empty and the slot is designated, and is unchanged otherwise; designated = head of "
+                 "every operand but the first and tail of every operand but the last of an AND/OR/Bool operation "
+                 "(both for a single operand), tail of every operand but the last of an implicit operation, head of "
+                 "the operand of NOT, tail of the low and head of the high bound of a range; NOT designated: the "
+                 "root, inside a group's parentheses, after `field:`, before `~`/`^`, after `+` `-` `<` `>`, next to "
+                 "range brackets), it is idempotent (C13_idempotent) and leaves its "
                  "argument untouched (snapshot, implementation only); for layout-free trees the grammar can express "
-                 "the printed result parses back to the input: refuted (F4, F15); PROVED (C13x.v, C13x_round_trip_partial, which "
+                 "the printed result parses back to the input: refuted (C13_roundtrip_refuted: F4; "
+                 "C13_roundtrip_noF4_refuted: F15), proved in C13.v for flat AND/OR of plain words "
+                 "(C13_roundtrip_partial); PROVED (C13x.v, C13x_round_trip_partial, which "
                  "subsumes C13r.v's C13_round_trip_partial: C13x_subsumes_C13r) for "
                  "every tree inside the executable guard rt_ok2, any depth and width: operations with >= 2 operands "
                  "nested as the parser nests them (an operation directly under a same-or-higher-precedence operation, "
